@@ -27,13 +27,21 @@ P = {
     'rule': 'invariants: a case is one block history (quick: 20 blocks, thorough: 40) of 0-6 transactions per block on a fresh real '
             'application with 2-4 validators: really signed Cosmos transactions (bank send, delegate / undelegate / redelegate / cancel '
             'unbonding, withdraw rewards / commission, set withdraw address, fund community pool, create validator, unjail, gov submit / '
-            'deposit / vote incl. a RegisterCoin proposal, vesting conversion / clawback, liquidate / redeem, DAO fund / transfer, ERC20 '
+            'deposit / vote incl. a RegisterCoin proposal — deposits and community-pool fundings in SEVERAL denominations: the native coin, '
+            'the test coin, liquid tokens, and in most histories an IBC voucher and two coins that sort before / after the others, all held '
+            'since genesis; sometimes a min deposit in two denominations; the three gov burn switches are on (one of them off in some '
+            'histories), voting moods and a scripted proposal make deposits end vetoed / without quorum / dropped below the minimum, so that '
+            'deposits of several denominations are burned = redirected to the community pool, also denominations new to the pool —, vesting conversion / clawback, liquidate / redeem, DAO fund / transfer, ERC20 '
             'convert both ways, authz grant / exec) and really signed Ethereum transactions (transfers, script-contract call trees with '
             'nested calls, reverts and calls into the staking / distribution precompiles, direct precompile calls), block time steps of '
             'seconds to days (coinomics minting), absent validators (downtime slashing), double-sign evidence, occasionally the v1.7.5 '
             'upgrade; all 12 registered invariant routes are evaluated on the deliver state after EndBlock and on the committed store after '
             'Commit; non-trivial = at least 5 accepted transactions of at least 3 kinds; distinct = distinct histories. bankops: a case is '
-            'a sequence of 4-9 operations on a copy-on-write fork of a prepared real application; non-trivial = at least two accepted',
+            'a sequence of 4-9 operations on a copy-on-write fork of a prepared real application (governance holds deposits in five '
+            'denominations); burns through the Haqq bank keeper take one coin or a coin LIST of 0-5 denominations (valid, one coin not '
+            'covered, a zero amount, a denomination twice); besides the comparison with the model the registered invariant '
+            'distribution/module-account must survive every operation that does not pay the distribution account directly, and a refused '
+            'burn must be refused by the model too; non-trivial = at least two accepted',
     'trusted_base': [
         'Coq 8.16.1 kernel incl. vm_compute (no native_compute); std++ 1.8.0 gmap',
         'axioms: none (Print Assumptions: closed under the global context for every theorem of Props/C15.v)',
@@ -45,6 +53,8 @@ P = {
         'MintAndAllocate, ucdao Fund, liquidvesting Liquidate / Redeem, erc20 ConvertCoin / ConvertERC20 (native coin pairs), evm SetBalance',
     ],
     'assumptions': [
+        'coin lists reach the bank in the order of their denomination strings (sdk.NewCoins / validated messages); the model checks the '
+        'rest of Coins.Validate (positive amounts, no denomination twice), the harness presents every list in that order',
         'the histories use unbonding times of seconds; a validator that left the set keeps voting for two blocks as in CometBFT, and the '
         'harness does not let block time jump over the unbonding time during those two blocks (on a real chain the unbonding time is weeks)',
         'at least two validators are never targeted by downtime / evidence (an empty validator set halts CometBFT and is not a block input)',
